@@ -23,7 +23,7 @@ BUDGET = {
     "thorough": {"examples": 160000, "shards": 16, "min_nontrivial": 40000, "min_per_name": 1000, "max_wall": 3000},
 }
 SHARDED_STRATEGY = True
-PATHS = ["registry", "sup", "semi", "knn", "unsup"]
+PATHS = ["registry", "sup", "semi", "knn", "unsup", "load"]
 
 
 def _models():
@@ -98,17 +98,49 @@ def check_case(case):
             require(ok == in_reg, "accepted_iff_registered", "%r: in registry=%r, accepted by %s=%r" % (cand, in_reg, kind, ok))
             if ok:
                 require(val.distance_fn is dist.DISTANCES[cand], "model_resolves_registry_fn", "%s(distance=%r).distance_fn is not DISTANCES[%r]" % (kind, cand, cand))
+        if in_reg:
+            # plugging a user-defined function into ONE model must not change what the identifier means elsewhere
+            def _custom(a, b):
+                return 0.0
+
+            _custom.__name__ = cand + "_distance"
+            orig = dist.DISTANCES[cand]
+            mdl = lib.libcall(_models()["sup"], cand)
+            mdl.distance_fn = _custom
+            require(dist.DISTANCES[cand] is orig, "registry:unchanged_by_custom_function", "DISTANCES[%r] was replaced after assigning a custom distance_fn to one model" % cand)
+            mdl2 = lib.libcall(_models()["knn"], distance=cand) if False else lib.libcall(_models()["unsup"], cand)
+            require(mdl2.distance_fn is orig, "registry:unchanged_by_custom_function", "a later model resolves %r to another function" % cand)
         return Outcome.ok(nontrivial=(not in_reg and cand != ""), classes=["accept", "accept_in" if in_reg else "accept_out"])
 
     name, x, y, path = case["name"], case["x"], case["y"], case["path"]
     if path == "registry":
         require(name in dist.DISTANCES, "registry:has_name", "%r missing from DISTANCES" % name)
         fn = dist.DISTANCES[name]
+    elif path == "load":
+        # the identifier travels through a saved model file into a default-constructed model
+        import os
+        import tempfile
+
+        mk = _models()["sup"]
+        m0 = lib.libcall(mk, name)
+        with tempfile.TemporaryDirectory(prefix="c06-") as tmp:
+            f = os.path.join(tmp, "m.pkl")
+            lib.libcall(m0.save, f)
+            from opfython.models.supervised import SupervisedOPF
+
+            m1 = lib.libcall(SupervisedOPF)
+            lib.libcall(m1.load, f)
+        require(m1.distance == name, "load:keeps_identifier", "loaded model reports distance %r, saved %r" % (m1.distance, name))
+        fn = m1.distance_fn
     else:
         model = lib.libcall(_models()[path], name)
         fn = model.distance_fn
     xa, ya = np.array(x, dtype=np.dtype(case.get("xdtype", "float64"))), np.array(y, dtype=np.dtype(case.get("ydtype", "float64")))
+    xb, yb = xa.tobytes(), ya.tobytes()
     val = lib.libcall(fn, xa, ya)
+    val2 = lib.libcall(fn, xa, ya)  # the very same arrays again
+    require(xa.tobytes() == xb and ya.tobytes() == yb, "arguments_unchanged:" + name, "evaluating %s modified its arguments" % name)
+    require(np.float64(val).tobytes() == np.float64(val2).tobytes(), "repeatable:" + name, lambda: "%s returned %r, then %r for the same arrays" % (name, val, val2))
     ok, msg = M.compare(name, val, x, y)
     require(ok, "closed_form:" + name, lambda: "%s via %s, n=%d, x=%r y=%r" % (msg, path, len(x), x[:6], y[:6]))
     ref = M.reference(name, x, y)[0]
